@@ -92,6 +92,10 @@ def _text_of(e, env) -> str:
     return unparse(e)
 
 
+_OPPOSITE = {ast.Eq: ast.NotEq, ast.NotEq: ast.Eq, ast.Is: ast.IsNot, ast.IsNot: ast.Is, ast.In: ast.NotIn, ast.NotIn: ast.In,
+             ast.Lt: ast.GtE, ast.GtE: ast.Lt, ast.Gt: ast.LtE, ast.LtE: ast.Gt}
+
+
 def eval_expr(e, env) -> tuple:
     assume = env.get('__assume__') or {}
     txt = None
@@ -99,6 +103,11 @@ def eval_expr(e, env) -> tuple:
         txt = unparse(e)
         if txt in assume:
             return ('const', assume[txt])
+        # the same atom written with the opposite comparison operator (`a != b` vs `a == b`, `x is not None` vs `x is None`, ...)
+        if isinstance(e, ast.Compare) and len(e.ops) == 1 and type(e.ops[0]) in _OPPOSITE:
+            alt = unparse(ast.Compare(left=e.left, ops=[_OPPOSITE[type(e.ops[0])]()], comparators=e.comparators))
+            if alt in assume:
+                return ('const', not assume[alt])
     if isinstance(e, ast.Compare) and len(e.ops) == 1 and env.get('__order__'):
         lt, rt = _text_of(e.left, env), _text_of(e.comparators[0], env)
         order = env['__order__']
@@ -128,6 +137,8 @@ def eval_expr(e, env) -> tuple:
     if isinstance(e, ast.UnaryOp) and isinstance(e.op, ast.Not):
         t = _truth(eval_expr(e.operand, env))
         if t is None:
+            if env.get('__opaque_ok__'):
+                return ('opaque', unparse(e))
             raise NotUnderstood(f"undecidable operand {unparse(e.operand)}")
         return ('const', not t)
     if isinstance(e, ast.BoolOp):
@@ -160,6 +171,8 @@ def eval_expr(e, env) -> tuple:
             if r is None:
                 raise NotUnderstood(f"undecidable comparison {unparse(e)}")
             return ('const', r if isinstance(op, ast.Eq) else not r)
+        if env.get('__opaque_ok__'):
+            return ('opaque', unparse(e))          # an ordering nobody assumed anything about: a value, undecidable as a test
         raise NotUnderstood(f"comparison {unparse(e)}")
     if isinstance(e, ast.Call) and isinstance(e.func, ast.Name) and e.func.id == 'int' and len(e.args) == 1 and not e.keywords:
         v = eval_expr(e.args[0], env)
